@@ -7,6 +7,7 @@ from recipe_grid.units import UNIT_SYSTEM
 from recipe_grid.recipe import Quantity, Ingredient
 from recipe_grid.compiler import compile as rg_compile
 from recipe_grid.renderer.html import render_quantity
+from recipe_grid.number_formatting import format_number
 
 from .. import sexp, rsexp
 
@@ -56,6 +57,12 @@ def real_convert(a, b):
         return UNIT_SYSTEM.convert_between(a, b)
     except KeyError:
         return None
+
+
+def rng_case(a, v):
+    """the unit name in a letter case that depends on the inputs only (deterministic)"""
+    k = (len(a) + int(v * 2)) % 3
+    return a if k == 0 else (a.upper() if k == 1 else a.title())
 
 
 def names_now():
@@ -168,15 +175,31 @@ def oracle(run):
                 run.violate("C12:not-transitive", "%s->%s->%s" % (a, b, c), {"triple": [a, b, c]})
     # alternative-unit list
     for a in sorted(NAME_KIND):
-        for v in (3, Fraction(1, 2), 2.5):
-            html = render_quantity(Quantity(v, a, " "))
+        for v in (3, Fraction(1, 2), 2.5, 0, 0.0, Fraction(0), 1, 1.0):
+            written = rng_case(a, v)
+            html = render_quantity(Quantity(v, written, " "))
             import re
+            import html as _html
             items = re.findall(r"<li>(.*?)</li>", html)
             others = sorted({PRIMARY[n] for n in NAME_KIND if NAME_KIND[n] == NAME_KIND[a] and NAME_KIND[a] in ("mass", "volume")} - {PRIMARY[a]})
             got = sorted(i.rsplit(" ", 1)[1] for i in items)
             run.case(("altlist", a, repr(v)), True, kind="alt-list")
             if got != others:
-                run.violate("C12:alternative-list-wrong", "%s: lists %r, expected %r" % (a, got, others), {"name": a})
+                run.violate("C12:alternative-list-wrong", "%r %s: lists %r, expected %r" % (v, a, got, others), {"name": a})
+                continue
+            # the headline is the amount as written (the author's unit, in the author's spelling)
+            head = re.sub(r"<ul.*", "", html, flags=re.S)
+            head_text = _html.unescape(re.sub(r"<[^>]*>", "", head)).replace("\u2044", "/").strip()
+            want_head = format_number(v) + " " + written
+            if " ".join(head_text.split()) != " ".join(want_head.split()):
+                run.violate("C12:alternative-list-wrong", "%r %s: headline %r, expected %r" % (v, written, head_text, want_head), {"name": a})
+            # every alternative shows the converted amount
+            for it in items:
+                val, unit = _html.unescape(re.sub(r"<[^>]*>", "", it)).replace("\u2044", "/").rsplit(" ", 1)
+                f = real_convert(a, unit)
+                want_val = format_number(v * f)
+                if " ".join(val.split()) != want_val:
+                    run.violate("C12:alternative-list-wrong", "%r %s: shows %r %s, expected %r" % (v, a, val, unit, want_val), {"name": a})
     # equal amounts
     rng = run.rng
     for _ in range(run.budget(2000, 30000)):
